@@ -304,6 +304,7 @@ const eps = 1e-6
 // guard names a known-defect configuration met while laying out (see notes/C11.md); such a block is
 // outside the compared domain.
 func (m *model) Layout(W float64) (lines []Line, guard string) {
+	guards := map[string]bool{}
 	indent := float64(m.p.Indent)
 	if m.p.IndPct != 0 {
 		indent = W * float64(m.p.IndPct) / 100
@@ -329,13 +330,13 @@ func (m *model) Layout(W float64) (lines []Line, guard string) {
 				// before it fits and the text with it does not, even if content follows on the line
 				tsp, endsNode, inBox := m.trailingSpace(pos, end)
 				if m.coll && tsp > 0 && endsNode && x-tsp+ns <= avail+eps {
-					guard = "D2"
+					guards["D2"] = true
 				}
 				_ = inBox
 				// finding D12: the preserved-line-break flag of a child that is then moved to the
 				// next line stays set, and the line is not justified
 				if f && m.items[q-1].tn >= 0 && m.p.Align == "justify" {
-					guard = "D12"
+					guards["D12"] = true
 				}
 				break
 			}
@@ -357,12 +358,12 @@ func (m *model) Layout(W float64) (lines []Line, guard string) {
 		// finding D6: a trailing space held by an inline box is not allowed to hang: when the
 		// line fits only without it, the break is taken at an earlier opportunity
 		if tsp, _, inBox := m.trailingSpace(pos, end); tsp > 0 && inBox && x > avail+eps && x-tsp <= avail+eps {
-			guard = "D6"
+			guards["D6"] = true
 		}
 		// finding D10: the last line is justified when a collapsible space follows it and the line
 		// fits only without that space
 		if tsp, _, _ := m.trailingSpace(pos, end); m.p.Align == "justify" && m.coll && end >= len(m.items) && tsp > 0 && x > avail+eps && x-tsp <= avail+eps {
-			guard = "D10"
+			guards["D10"] = true
 		}
 		ln := m.finish(pos, end, open, start, W, y, forced || end >= len(m.items))
 		lines = append(lines, ln)
@@ -383,7 +384,12 @@ func (m *model) Layout(W float64) (lines []Line, guard string) {
 	if len(lines) > 0 {
 		lines[len(lines)-1].Last = true
 	}
-	return lines, guard
+	for _, g := range []string{"D2", "D6", "D10", "D12"} {
+		if guards[g] && !lifted(g) {
+			return lines, g
+		}
+	}
+	return lines, ""
 }
 
 // trailingSpace returns the width of the space ending items[p:q] (end edges skipped) and whether
